@@ -53,6 +53,13 @@ def apply_ops(ops):
             real.extend_direct(list(op[1]))
             for a in op[1]:
                 model = eager_iadd(model, [a], ovr, uniq, prep) if os.path.isabs(a) else model + [a]
+        elif k == 'epl':
+            # extend_preserving_lflags: the -l / -L words outside the class's always-dedup table are appended verbatim, after the rest
+            real.extend_preserving_lflags(list(op[1]))
+            lf = [a for a in op[1] if a not in C.always_dedup_args and (a.startswith('-l') or a.startswith('-L'))]
+            model = eager_iadd(model, [a for a in op[1] if a not in lf], ovr, uniq, prep)
+            for a in lf:
+                model = eager_iadd(model, [a], ovr, uniq, prep) if os.path.isabs(a) else model + [a]
         elif k == 'append_direct':
             real.append_direct(op[1])
             model = eager_iadd(model, [op[1]], ovr, uniq, prep) if os.path.isabs(op[1]) else model + [op[1]]
@@ -93,6 +100,8 @@ def op_alphabet(alpha):
     for b in itertools.product(['-Ia', '-Dx', '-Ib', 'x.c'], repeat=3):
         if len(set(b)) == 3:
             ops.append(('iadd', b))
+    for b in itertools.product(['-lfoo', '-lm', '-L/q', 'x.c'], repeat=2):       # '-lm' is in the C-like always-dedup table
+        ops.append(('epl', b))
     ops += [('copy',), ('read',)]
     ops += [('insert', 0, alpha[0]), ('insert', 1, alpha[2])]
     return ops
